@@ -456,7 +456,11 @@ impl BuiltInFunction {
                     format!("top vector index `{top}` could not be used to index (usize)")
                 })?;
 
-                Ok((Some(Primitive::Str(s[bottom..top].to_owned())), None))
+                let Some(substring) = s.get(bottom..top) else {
+                    bail!("substring range `{bottom}..{top}` is out of bounds or splits a character (len {} bytes)", s.len())
+                };
+
+                Ok((Some(Primitive::Str(substring.to_owned())), None))
             }
             Self::StrContains => {
                 let Some(Primitive::Str(s)) = arguments.first() else {
